@@ -7,9 +7,26 @@
    props  = list of: opt name, list of list of cval, important, snippet
    cval   = 0 kind opt-start opt-end | 1 name nargs (nvals cval* )*      (kinds as in run/StyleRun.enc_ckind)
    dec    = neg, mantissa digits as text, exponent *)
-From Emmet Require Import lib.Base lib.Wire lib.StyleLib model.CssTokenizer model.CssParser
+From Coq Require Import String Ascii.
+From Emmet Require Import lib.Base lib.Wire lib.StyleLib model.CssTokenizer model.CssParser model.Color
      model.MarkupConvert model.OutStream model.CssFormatStream.
 Local Open Scope Z_scope.
+
+(* The models write their fixed fragments as Coq string literals ([lit "rgba"], model/Color.v and
+   model/CssFormatStream.v).  Extracting Coq's [string] type would clash with OCaml's in the generic driver and
+   ExtrOcamlString is not in the trusted base, so the literals are evaluated to code-point lists HERE, by
+   unfolding the formatter down to them; the result is convertible with the model: [css_stream_x_eq]. *)
+Definition css_stream_x : cssfmt -> list cssprop -> ostream := Eval cbv beta iota delta
+  [css_stream s_stringify_from s_css_property s_css_property_value s_join_values s_output_value s_output_value_from
+   s_output_token s_output_important color as_rgb lit List.map list_ascii_of_string N_of_ascii N_of_digits
+   N.add N.mul Pos.add Pos.mul Pos.succ Pos.add_carry] in css_stream.
+Lemma css_stream_x_eq : css_stream_x = css_stream.
+Proof. reflexivity. Qed.
+Definition field_tabstop_x : option N -> str -> str := Eval cbv beta iota delta
+  [field_tabstop lit List.map list_ascii_of_string N_of_ascii N_of_digits
+   N.add N.mul Pos.add Pos.mul Pos.succ Pos.add_carry] in field_tabstop.
+Lemma field_tabstop_x_eq : field_tabstop_x = field_tabstop.
+Proof. reflexivity. Qed.
 
 Definition dbind {A B} (d : option (A * wire)) (f : A -> wire -> option (B * wire)) : option (B * wire) :=
   match d with Some (a, w) => f a w | None => None end.
@@ -65,7 +82,7 @@ Definition dec_cssfmt : Wire.dec cssfmt := fun w =>
   dbind (dec_bool w) (fun short_hex w => dbind (dec_bool w) (fun json w => dbind (dec_bool w) (fun json_dq w =>
   dbind (dec_bool w) (fun skip w => dbind (dec_bool w) (fun format w => dbind (dec_bool w) (fun tabstop w =>
   Some (mkCssFmt (mkOfmt indent base newline) between after short_hex json json_dq skip format
-                 (if tabstop then field_tabstop else field_identity), w)))))))))))).
+                 (if tabstop then field_tabstop_x else field_identity), w)))))))))))).
 
 Definition enc_event (e : oevent) : wire :=
   match e with
@@ -84,7 +101,7 @@ Definition with_case (w : wire) (f : cssfmt -> list cssprop -> wire) : wire :=
 
 Definition run (w : wire) : wire :=
   match w with
-  | 1 :: w' => with_case w' (fun c props => 0 :: enc_list enc_event (rev (os_events (css_stream c props))))
-  | 2 :: w' => with_case w' (fun c props => 0 :: enc_str (os_value (css_stream c props)))
+  | 1 :: w' => with_case w' (fun c props => 0 :: enc_list enc_event (rev (os_events (css_stream_x c props))))
+  | 2 :: w' => with_case w' (fun c props => 0 :: enc_str (os_value (css_stream_x c props)))
   | _ => wire_bad
   end.
